@@ -163,12 +163,15 @@ def run_c15(ctx, tier=None, seed=None):
     mixed_base_programs(ctx, select='.into()')
     # "a bare number converts to and from a ratio unchanged": all 13 storage types incl. complex, two base-unit sets
     std_pipe(ctx, 'ratio-number', 'wide', 'convx', 'num', tier=tier, seed=seed, shards=1)
+    # "no other conversion between quantities exists": rustc's verdict on `let _: B = a.into()` for every ordered
+    # pair of classes of one dimension and a sample of the rest
+    kind_conversion_probes(ctx, tier=tier, seed=seed)
 
 
 spec('C15', run=run_c15, search=search_with(run_c15),
      rule='9 special-kind/default-kind quantity pairs (angle, solid angle, information, information rate, angular velocity, surface tension, kinematic viscosity, '
           'mass concentration) × both directions × same and different base-unit sets × f32, f64, BigRational, BigInt; every conversion non-trivial by construction',
-     trusted_base=['negative programs (conversions that must not exist) are decided by the Lean theorem from_exists_iff over the regenerated impl_from! list and by the C02 rustc probes'],
+     trusted_base=['negative programs (conversions that must not exist) are decided by the Lean theorem from_exists_iff over the regenerated impl_from! list and by rustc: `let _: B = a.into()` for every ordered pair of SI (dimension, kind) classes of one dimension and 300 sampled pairs of different dimension (thorough: all)'],
      assumptions=[])
 
 
@@ -721,6 +724,69 @@ def mixed_base_programs(ctx, select=None):
 
 
 
+def run_acc_cases(ctx, cases, rlib, deps, dirname, pipename, tier, seed):
+    """type-check one probe function per case with rustc and hand the verdicts to the Lean driver"""
+    import probes
+    pdir = os.path.join(VERIF, 'build', dirname)
+    os.makedirs(pdir, exist_ok=True)
+    nfiles = 32
+    files = []
+    index = []
+    for k in range(nfiles):
+        part = cases[k::nfiles]
+        path = os.path.join(pdir, 'p%02d.rs' % k)
+        with open(path, 'w', encoding='utf-8') as f:
+            f.write('#![allow(unused)]\n')
+            for i, (form, a, b, same) in enumerate(part):
+                f.write(probes.probe_fn('f%d' % i, form, a, b) + '\n')
+        files.append(path)
+        index.append(part)
+    results = probes.run_probe_files(files, rlib, deps)
+    lines = []
+    for k, (bad, other) in enumerate(results):
+        if other:
+            ctx.problems.append(Problem('harness-broken', 'rustc reported errors without a location in %s' % files[k], '; '.join(other[:3])))
+        for i, (form, a, b, same) in enumerate(index[k]):
+            obs = 0 if (i + 2) in bad else 1
+            lines.append('acc %s %s %s %s %s %d %d %s:%s:%s' % (form, ','.join(map(str, a['dim'])), a['kind'], ','.join(map(str, b['dim'])), b['kind'], same, obs,
+                                                         a['module'], b['module'], bad.get(i + 2, '-')))
+    cpath = os.path.join(pdir, 'cases.txt')
+    with open(cpath, 'w', encoding='utf-8') as f:
+        f.write('\n'.join(lines) + '\n')
+    dump = lean_dump(ctx)
+    if dump is None:
+        return False
+    res = pipe(ctx, pipename, 'cat %s %s' % (dump, cpath), shards=1, tier=tier, seed=seed)
+    absorb(ctx, res, pipename)
+    return True
+
+
+def kind_conversion_probes(ctx, tier=None, seed=None):
+    """C15 negatives and positives, decided by rustc: `let _: B = a.into()` for every ordered pair of SI classes of
+    one dimension (special kind -> default, default -> special, special -> other special, temperature kind <-> default)
+    and a sample of pairs of different dimension"""
+    import probes
+    import random
+    tier = tier or ctx.tier
+    seed = ctx.seed if seed is None else seed
+    t = load_table()
+    if not cargo_build(ctx, 'wide', []):
+        return
+    rlib, deps = probes.find_rlib('wide')
+    if not rlib:
+        ctx.problems.append(Problem('harness-broken', 'uom rlib not found'))
+        return
+    cl = probes.classes(t)
+    keys = sorted(cl, key=lambda k: (k[1], k[0]))
+    same_dim = [(x, y) for x in keys for y in keys if x != y and x[0] == y[0]]
+    others = [(x, y) for x in keys for y in keys if x[0] != y[0]]
+    rng = random.Random(seed)
+    pairs = same_dim + (others if tier == 'thorough' else rng.sample(others, min(len(others), 300)))
+    cases = [('from', cl[x][0], cl[y][0], 0) for x, y in pairs] + [('from', cl[x][0], cl[x][0], 1) for x in keys]
+    run_acc_cases(ctx, cases, rlib, deps, 'probes15', 'kind-conversion-programs', tier, seed)
+    ctx.extra['kind_conversion_programs'] = len(cases)
+
+
 def run_c02(ctx, tier=None, seed=None):
     import probes
     import random
@@ -753,37 +819,8 @@ def run_c02(ctx, tier=None, seed=None):
         for b in cl[x][1:2]:  # same type, other quantity module: foreign units are still rejected
             for f in ('newf', 'getf', 'fmtargs', 'fmtwith', 'floorf', 'letbind', 'add', 'eq', 'from'):
                 cases.append((f, a, b, 0))
-    pdir = os.path.join(VERIF, 'build', 'probes02')
-    os.makedirs(pdir, exist_ok=True)
-    nfiles = 32
-    files = []
-    index = []
-    for k in range(nfiles):
-        part = cases[k::nfiles]
-        path = os.path.join(pdir, 'p%02d.rs' % k)
-        with open(path, 'w', encoding='utf-8') as f:
-            f.write('#![allow(unused)]\n')
-            for i, (form, a, b, same) in enumerate(part):
-                f.write(probes.probe_fn('f%d' % i, form, a, b) + '\n')
-        files.append(path)
-        index.append(part)
-    results = probes.run_probe_files(files, rlib, deps)
-    lines = []
-    for k, (bad, other) in enumerate(results):
-        if other:
-            ctx.problems.append(Problem('harness-broken', 'rustc reported errors without a location in %s' % files[k], '; '.join(other[:3])))
-        for i, (form, a, b, same) in enumerate(index[k]):
-            obs = 0 if (i + 2) in bad else 1
-            lines.append('acc %s %s %s %s %s %d %d %s:%s:%s' % (form, ','.join(map(str, a['dim'])), a['kind'], ','.join(map(str, b['dim'])), b['kind'], same, obs,
-                                                         a['module'], b['module'], bad.get(i + 2, '-')))
-    cpath = os.path.join(pdir, 'cases.txt')
-    with open(cpath, 'w', encoding='utf-8') as f:
-        f.write('\n'.join(lines) + '\n')
-    dump = lean_dump(ctx)
-    if dump is None:
+    if not run_acc_cases(ctx, cases, rlib, deps, 'probes02', 'rustc-verdicts', tier, seed):
         return
-    res = pipe(ctx, 'rustc-verdicts', 'cat %s %s' % (dump, cpath), shards=1, tier=tier, seed=seed)
-    absorb(ctx, res, 'rustc-verdicts')
     ctx.extra['probe_functions'] = len(cases)
     ctx.extra['class_pairs'] = len(pairs)
     ctx.extra['classes'] = len(keys)
